@@ -44,6 +44,19 @@ CLAIMED = {
     note='Default backend only (other backends: C02); hierarchy levels of the input node are exercised in C06/C17 only; exact regime.',
     technique='TLA+ spec of input lookup/interpolation, TLC enumeration, exact replay through run() and get_run_func()',
     ref='6/C08'),
+
+ 'C18': dict(
+    text='spec/Auto.tla: the PAR-slot allocation loop as a state machine (TLC: all parameter counts 0..40, LoopInv + the C18 '
+         'predicates on the artefacts the model derives) and the C18 requirements as predicates over an artefact record. '
+         'Every TLC-exported program (parameters per node x order of first use x one/two nodes sharing the operator x '
+         'defaults/overrides x scenario selection) is exported through get_run_func(backend=fortran, auto=True); the .f90 and '
+         'every c.<scenario> file are parsed into artefact records, FUNC and STPNT are called through f2py, and TLC evaluates '
+         'the predicates on every record (trace validation): slots injective, avoid 11..14, follow declaration order, STPNT / '
+         'parnames / call / signature / DFDP agree, NPAR = max slot, NDIM, exported field = model field.',
+    note='Parameters are identified by pairwise distinct prime values; linear models; <= 20 declared parameters per node, 2 nodes; '
+         'the relative slot of edge weights and undriven inputs is not constrained (the property does not say).',
+    technique='TLA+ slot-loop spec (TLC exhaustive) + TLC trace validation of artefacts parsed from generated files and f2py calls',
+    ref='6/C18'),
 }
 
 NOT_YET = 'check not built yet in this round (planned in DESIGN.md section 6); not claimed'
